@@ -21,12 +21,11 @@ const kfAnyURL = "KF-text-any-url-unparseable"
 // bracketURL: the URL can be written as a bracketed type name — [ prefix "/" ] full.name with the
 // prefix made of letters, digits and -_.~!$&()*+,;=/ or %XX, not starting with '/'.
 func bracketURL(url string) bool {
-	i := strings.LastIndexByte(url, '/')
-	if i < 0 {
-		return false
+	prefix, name := "", url
+	if i := strings.LastIndexByte(url, '/'); i >= 0 {
+		prefix, name = url[:i], url[i+1:]
 	}
-	prefix, name := url[:i], url[i+1:]
-	if strings.HasPrefix(prefix, "/") || !protoreflect.FullName(name).IsValid() {
+	if strings.HasPrefix(prefix, "/") || !bracketName(name) {
 		return false
 	}
 	for j := 0; j < len(prefix); j++ {
@@ -41,6 +40,27 @@ func bracketURL(url string) bool {
 	}
 	return true
 }
+
+// bracketName: dotted name of non-empty identifiers over letters, digits, '-' and '_' (the text
+// grammar for type names is wider than protobuf identifiers).
+func bracketName(name string) bool {
+	for _, id := range strings.Split(name, ".") {
+		if id == "" {
+			return false
+		}
+		for j := 0; j < len(id); j++ {
+			c := id[j]
+			if !(c >= 'a' && c <= 'z' || c >= 'A' && c <= 'Z' || c >= '0' && c <= '9' || c == '-' || c == '_') {
+				return false
+			}
+		}
+	}
+	return true
+}
+
+// Since the repair of KF-text-any-url-unparseable prototext keeps an Any whose URL cannot be written
+// between brackets in the raw type_url/value form; the expected content follows that rule.
+func init() { gen.TextualKeepRaw = func(url string) bool { return !bracketURL(url) } }
 
 func isHex(c byte) bool { return c >= '0' && c <= '9' || c >= 'a' && c <= 'f' || c >= 'A' && c <= 'F' }
 
